@@ -308,6 +308,19 @@ CONTRACTS = [
       raises={"ValueError": "node not in V(self) or (order is not None and size is not None)"},
       ensures={"result": "all(count(result, k) == (1 if k in E(self) and node in fst(k) and sel(self, k, order, size, False) else 0) for k in Key)"},
       properties=["C04", "C08"]),
+    # per-node view of the same numbers: every node exactly once (a dict), its value the degree under the same filter
+    Contract("degree_sequence[MultiplexHypergraph]", "hypergraphx/measures/degree.py", ["degree_sequence"], properties=["C04", "C08"],
+      params={"hg": "Obj[MultiplexHypergraph]", "order": "Opt[Int]", "size": "Opt[Int]"}, result="Map[Int,Int]", pure=True,
+      requires={"wf": "wf(hg)"},
+      raises={"ValueError": "order is not None and size is not None"},
+      ensures={"dom": "all((n in result) == (n in V(hg)) for n in Node)",
+               "val": "all(result[n] == card({k for k in E(hg) if n in fst(k) and sel(hg, k, order, size, False)}) for n in V(hg))"}),
+    C("degree_sequence", params={"order": "Opt[Int]", "size": "Opt[Int]"}, result="Map[Int,Int]", pure=True,
+      requires={"wf": "wf(self)"},
+      raises={"ValueError": "order is not None and size is not None"},
+      ensures={"dom": "all((n in result) == (n in V(self)) for n in Node)",
+               "val": "all(result[n] == card({k for k in E(self) if n in fst(k) and sel(self, k, order, size, False)}) for n in V(self))"},
+      properties=["C04", "C08"]),
     Contract("degree[MultiplexHypergraph]", "hypergraphx/measures/degree.py", ["degree"], properties=["C04", "C08"],
       params={"hg": "Obj[MultiplexHypergraph]", "node": "Node", "order": "Opt[Int]", "size": "Opt[Int]"}, result="Int", pure=True,
       requires={"wf": "wf(hg)"},
